@@ -1,9 +1,11 @@
 package props
 
 import (
+	"bufio"
 	"bytes"
 	"encoding/json"
 	"fmt"
+	"io"
 	"testing"
 
 	"github.com/gregoryv/mq"
@@ -24,7 +26,8 @@ import (
 type opC14 struct {
 	Kind     string     `json:"kind"` // unmarshal | readpacket | build | scribble | encode | render | setter | redecode
 	Frame    Hex        `json:"frame,omitempty"`
-	New      bool       `json:"new,omitempty"` // unmarshal into the constructor's value instead of the zero value
+	New      bool       `json:"new,omitempty"`    // unmarshal into the constructor's value instead of the zero value
+	Reader   string     `json:"reader,omitempty"` // readpacket: bytes.Reader (default), bytes.Buffer, bufio over the retained slice
 	Slot     int        `json:"slot,omitempty"`
 	Setter   string     `json:"setter,omitempty"`
 	Index    int        `json:"index,omitempty"`
@@ -96,7 +99,16 @@ func checkC14(c caseC14) (sig, msg string) {
 				s.retained = append([]byte(nil), op.Frame...)
 				pan = guard.Watched(len(op.Frame), func() []byte {
 					return mustJSON(vf.Failure{Property: "C14", Kind: "hang", Case: mustJSON(c), Signature: "hang"})
-				}, func() { s.p, err = mq.ReadPacket(bytes.NewReader(s.retained)) })
+				}, func() {
+					var rd io.Reader = bytes.NewReader(s.retained)
+					switch op.Reader {
+					case "bytes.Buffer":
+						rd = bytes.NewBuffer(s.retained) // the buffer's storage IS the retained slice
+					case "bufio":
+						rd = bufio.NewReaderSize(bytes.NewReader(s.retained), 64)
+					}
+					s.p, err = mq.ReadPacket(rd)
+				})
 			}
 			if pan != nil {
 				return "panic", fmt.Sprintf("step %d decode panicked: %v", step, pan.Value)
@@ -266,7 +278,11 @@ func TestC14(t *testing.T) {
 			case k == 2:
 				op.Kind = "readpacket"
 				f, _ := genCompleteFrame(t, true)
+				if rapid.IntRange(0, 5).Draw(t, "rp-type0") == 0 {
+					f = ref.Reframe(byte(rapid.IntRange(0, 15).Draw(t, "nib")), rapid.SliceOfN(rapid.Byte(), 1, 24).Draw(t, "undefined-body"))
+				}
 				op.Frame = f
+				op.Reader = rapid.SampledFrom([]string{"bytes.Reader", "bytes.Buffer", "bytes.Buffer", "bufio"}).Draw(t, "rp-reader")
 				types[live] = op.Frame[0] >> 4
 				live++
 			case k == 3:
